@@ -29,7 +29,7 @@ func runSequence(base string, seed int64, idx int, evs []event) (res *seqResult)
 	if evs == nil {
 		evs = genSequence(rnd, idx, 8+rnd.Intn(18))
 	}
-	w, err := newWorld(base)
+	w, err := newWorld(base, len(evs) > 0 && evs[0].Kind == "old")
 	if err != nil {
 		res.Fatal = "harness: " + err.Error()
 		return res
